@@ -10,7 +10,7 @@ C19 — model of the recovery scan of `oxidize-pdf-core/src/parser/xref.rs`:
         de-duplication by line-start offset through `seen` = the offsets already pushed)
   * `scan_object_headers_chunked`   ↦ `scanChunked` (window = carry ++ chunk, carry from the last
         line boundary capped at `CARRY_CAP`, final sort by offset)
-  * `read_object_content`, `find_catalog_by_content`, steps 4b–4f of
+  * `read_object_content`, `find_catalog_by_content`, steps 4a–4f of
     `parse_with_recovery_options`   ↦ `readObjectContent`, `findRoot`
   * `add_headers_latest_wins`       ↦ `recoveredEntries` (`upsert` in scan order)
 Import-free.
@@ -355,6 +355,50 @@ def rootGen (entries : List (Nat × Nat × Nat)) (root : Nat) : Nat :=
   match entries.find? (·.1 = root) with
   | some (_, _, g) => g
   | none => 0
+
+/-! ### step 4a: `/Root` declared by a cross-reference stream in the last 256 KiB -/
+
+/-- `str::lines()`: pieces ended by LF (one CR before the LF is dropped), a non-empty rest -/
+def linesLF : Bytes → Bytes → List Bytes
+  | [], cur => if cur.isEmpty then [] else [cur.reverse]
+  | c :: r, cur =>
+    if c = 10 then
+      (match cur with
+       | 13 :: cur' => cur'.reverse
+       | _ => cur.reverse) :: linesLF r []
+    else linesLF r (c :: cur)
+
+/-- `extract_root_from_xref_stream` -/
+def extractRootGo : List Bytes → Bool → Option Nat
+  | [], _ => none
+  | l :: rest, inx =>
+    if containsSub l (ascii " obj") &&
+        (match rest with
+         | nx :: _ => containsSub nx (ascii "/Type /XRef")
+         | [] => false) then extractRootGo rest true
+    else if inx then
+      if containsSub l (ascii "endobj") then extractRootGo rest false
+      else
+        match findSub (ascii "/Root ") l 0 with
+        | some p =>
+          let after := l.drop (p + 6)
+          (match findSub [32] after 0 with
+           | some sp =>
+             (match parseNum 4294967295 (after.take sp) with
+              | some n => some n
+              | none => extractRootGo rest true)
+           | none => extractRootGo rest true)
+        | none => extractRootGo rest true
+    else extractRootGo rest false
+
+def extractRootXs (f : Bytes) : Option Nat :=
+  extractRootGo (linesLF (f.drop (f.length - 262144)) []) false
+
+/-- steps 4a–4f: the root the synthesized trailer names -/
+def findRootRecovery (f : Bytes) (entries : List (Nat × Nat × Nat)) : Option Nat :=
+  match extractRootXs f with
+  | some r => if entries.any (·.1 = r) then some r else findRoot f entries
+  | none => findRoot f entries
 
 /-- `latest.insert(h.obj_num, h)` on a table kept ascending by number (the harness prints the
     `HashMap` sorted) -/
